@@ -24,6 +24,8 @@ ASSUMPTIONS = [
     "exhaustive only inside the listed TLC configurations; deeper terms / expressions / documents are seeded samples",
 ]
 
+KINDS = ["char", "inset", "any", "str", "lit", "eof", "seq", "choice", "many", "until", "opt", "kl", "kr", "fb", "nfb",
+         "map", "lift"]
 ALL_BIN = ["seq", "choice", "until", "kl", "kr", "fb", "nfb", "lift1", "lift3", "lift4"]
 
 
@@ -61,12 +63,12 @@ def plan(tier):
         ]
     return [
         dict(name="deep2", mod="PegMC", leaves=[1, 2], un=[1, 2, 4, 5, 6, 8], bin=deep_bin, depth=2, nary=True,
-             alpha=["a", "b"], maxlen=4),
+             alpha=["a", "b"], maxlen=4, hows=2),
         dict(name="deep2e", mod="PegMC", leaves=[1, 2, 3], un=[1, 2, 3, 4, 6, 7, 8],
              bin=["seq", "choice", "until", "kl", "kr", "fb", "nfb", "lift3"], depth=2, nary=True,
-             alpha=["a", "b"], maxlen=4),
+             alpha=["a", "b"], maxlen=4, sample=30000, hows=1),
         dict(name="leafy1", mod="PegMC", leaves=list(range(1, 19)), un=list(range(1, 9)), bin=ALL_BIN, depth=1,
-             alpha=["a", "b", "A", "\\"], maxlen=4),
+             alpha=["a", "b", "A", "\\"], maxlen=3, hows=3),
         dict(name="tag2", mod="TagLangMC", atoms=[1, 2, 3, 4, 5], depth=2),
         dict(name="tag2b", mod="TagLangMC", atoms=[6, 7, 8, 9, 10], depth=2),
         dict(name="json2", mod="JsonDocMC", atoms=list(range(1, 9)), depth=2),
@@ -260,6 +262,140 @@ def pick(rng, items, n):
     return rng.sample(items, n)
 
 
+class Stage(object):
+    """Runs groups of driver jobs, validates their traces and keeps only what the verdict and
+    the evidence need, so that memory stays bounded by the largest group."""
+
+    MOD = {"peg": "PegTrace", "tag": "TagLangTrace", "json": "JsonDocTrace"}
+
+    def __init__(self):
+        self.val = lib.merge_val()
+        self.stats = {}
+        self.rej = []                 # dicts: clause, size, what, rep
+        self.seen = set()
+        self.nontrivial = 0
+        self.samples = {}
+        self.tdrv = 0.0
+        self.tval = dict(peg=0.0, tag=0.0, json=0.0)
+        self.by_kind = {}             # top kind of a term -> [successes, failures] observed
+        self.keep = {}                # kind -> a one-event trace for the self-test
+
+    def _note(self, k, nontrivial):
+        h = lib.hashlib.sha1(k.encode()).digest()
+        if h not in self.seen:
+            self.seen.add(h)
+            self.nontrivial += 1 if nontrivial else 0
+
+    def run(self, jobs, expect, rng):
+        if not jobs:
+            return
+        kind = jobs[0]["kind"]
+        t1 = time.time()
+        rng.shuffle(jobs)
+        payloads = [dict(jobs=ch) for ch in lib.chunks(jobs, lib.NCPU * 2) if ch]
+        outs = lib.run_driver_parallel("drive_peg.py", payloads, timeout=3000)
+        traces = []
+        for o in outs:
+            traces.extend(o["traces"])
+            for k, v in o["stats"].items():
+                self.stats[k] = self.stats.get(k, 0) + v
+        del outs
+        self.tdrv += time.time() - t1
+        t1 = time.time()
+        val = lib.validate_traces(self.MOD[kind], self.MOD[kind] + ".cfg", traces)
+        self.tval[kind] += time.time() - t1
+        self.val = lib.merge_val(self.val, val)
+        byid = dict((t["id"], t) for t in traces)
+        rejected = dict(((r["id"], r["line"]), r) for r in val["rejected"])
+        bad = [r for r in val["rejected"] if r["clause"].startswith("malformed")]
+        if bad:
+            ev = byid[bad[0]["id"]]["events"][bad[0]["line"] - 1]
+            raise lib.MachineryError("trace validation found a malformed case (%s): %s"
+                                     % (bad[0]["clause"], json.dumps(ev)[:1500]))
+        # consistency of the two directions: what TLC emitted and TLC's verdict on the observation
+        for t in traces:
+            for ln, ev in enumerate(t["events"], 1):
+                if kind == "peg":
+                    self._note(key(ev["t"]), ev["t"]["ts"])
+                    oc = self.by_kind.setdefault(ev["t"]["k"], [0, 0])
+                    nok = sum(1 for r in ev["res"] if r["ok"])
+                    oc[0] += nok
+                    oc[1] += len(ev["res"]) - nok
+                    exp = expect.get(("peg", key(ev["t"]), key(t["ws"])))
+                    same = exp == ev["res"] and all(c["ok"] == r["ok"] and c["v"] == r["v"]
+                                                    for c, r in zip(ev["cres"], ev["res"]))
+                elif kind == "tag":
+                    if ev["ev"] != "tag":
+                        continue
+                    self._note("t" + key(ev["toks"]), len(ev["toks"]) > 1)
+                    exp = expect.get(("tag", key(ev["toks"])))
+                    same = exp is not None and ev["ok"] and exp == ev["vals"]
+                else:
+                    self._note("j" + key(ev["v"]), ev["v"]["ts"])
+                    exp = expect.get(("json", key(ev["v"])))
+                    same = exp is not None and ev["got"]["ok"] and ev["got"]["toks"] == exp
+                if exp is not None and same == ((t["id"], ln) in rejected):
+                    raise lib.MachineryError("emitted expectation and trace validation disagree on %s event %d"
+                                             % (t["id"], ln))
+        for r in val["rejected"]:
+            t = byid[r["id"]]
+            ev = t["events"][r["line"] - 1]
+            if kind == "peg":
+                j = max(r.get("at", 1), 1) - 1
+                what = "%s built by %s on input %r: process -> %s, call -> %s" % (
+                    term_text(ev["t"]), ev["how"], "".join(t["ws"][j]), ev["res"][j], ev["cres"][j])
+                rep = dict(job=dict(id="replay/0", kind="peg", ws=[t["ws"][j]], terms=[dict(t=ev["t"], how=ev["how"])]))
+            elif kind == "tag":
+                what = "taglang.parse(%r): accepted=%s, results on %s = %s" % (ev["text"], ev["ok"], t["sets"], ev["vals"])
+                rep = dict(job=dict(id="replay/0", kind="tag", sets=t["sets"], exprs=[dict(toks=ev["toks"], sp=[0])],
+                                    retab=[]), text=ev["text"])
+            else:
+                what = "json_parser.loads(%r) -> %s, json.loads -> %s" % (ev["text"], ev["got"], ev["std"])
+                rep = dict(job=dict(id="replay/0", kind="json", values=[dict(v=ev["v"], mode=ev["mode"])]))
+            self.rej.append(dict(clause=r["clause"], size=r.get("size", 0), id=r["id"], line=r["line"],
+                                 what=what, rep=rep))
+        if kind not in self.keep and traces and traces[0]["events"]:
+            t = traces[0]
+            self.keep[kind] = dict((k, v) for k, v in t.items() if k != "events")
+            self.keep[kind]["events"] = [e for e in t["events"] if e["ev"] != "retab"][:1]
+        # one written-out case per kind for the evidence file
+        if kind not in self.samples and traces and traces[0]["events"]:
+            t, ev = traces[0], traces[0]["events"][-1]
+            if kind == "peg":
+                self.samples[kind] = dict(term=term_text(ev["t"]), built_by=ev["how"],
+                                          inputs=["".join(w) for w in t["ws"][:6]], observed=ev["res"][:6])
+            elif kind == "tag":
+                self.samples[kind] = dict(tag_expression=ev["text"], tag_sets=t["sets"], results=ev["vals"])
+            else:
+                self.samples[kind] = dict(json_text=ev["text"], decoded=ev["got"])
+
+
+def selftest(st):
+    """Binding demonstration (R5): a recorded event with one corrupted observation must be rejected."""
+    import copy
+    n = 0
+    for kind, t in sorted(st.keep.items()):
+        good = t["events"][0]
+        bad = copy.deepcopy(good)
+        if kind == "peg":
+            r = bad["res"][-1]
+            bad["res"][-1] = dict(ok=not r["ok"], pos=0 if r["ok"] else 1, v=[] if r["ok"] else ["N"])
+        elif kind == "tag":
+            bad["vals"][-1] = not bad["vals"][-1]
+        else:
+            bad["got"]["toks"] = bad["got"]["toks"] + ["N"]
+        m = dict(t, id="selftest-" + kind, events=[good, bad])
+        val = lib.validate_traces(Stage.MOD[kind], Stage.MOD[kind] + ".cfg", [m], jobs=1)
+        lines = sorted(r["line"] for r in val["rejected"] if not r["clause"].startswith("malformed"))
+        ok_first = 1 not in [r["line"] for r in val["rejected"]] or kind == "json"   # a JSON sample may hit the known finding
+        if 2 not in lines or not ok_first:
+            raise lib.MachineryError("self-test (%s): corrupted event not rejected exactly: %s" % (kind, val["rejected"]))
+        n += 1
+    if n != 3:
+        raise lib.MachineryError("self-test: only %d kinds of traces available" % n)
+    print("self-test: %d corrupted events rejected" % n)
+
+
 def run(prop, tier):
     rng = random.Random(lib.seed() * 104729 + 19)
     quick = tier == "quick"
@@ -272,68 +408,80 @@ def run(prop, tier):
         with open(path, "w") as f:
             f.write(peg_cfg(c) if c["mod"] == "PegMC" else
                     atom_cfg("ExprLaws" if c["mod"] == "TagLangMC" else "ValueLaws", c))
-        r = lib.run_tlc(c["mod"], path, workers=max(2, lib.NCPU // 4), tag="peg-" + c["name"], timeout=3000)
+        r = lib.run_tlc(c["mod"], path, workers=max(2, lib.NCPU // 4), tag="peg-" + c["name"], timeout=3000,
+                        raw_cases=True)
         lib.require_ok(r, "%s model %s" % (c["mod"], c["name"]))
         return c, r
 
     models, emitted = [], {}
     with concurrent.futures.ThreadPoolExecutor(max_workers=3) as ex:
         for c, r in ex.map(model, cfgs):
-            emitted[c["name"]] = r.cases
+            emitted[c["name"]] = r.cases          # raw lines, parsed when the configuration is replayed
             r.cases = []
             models.append(r)
     print("timing: models %.1fs (%s)" % (time.time() - t0, ", ".join("%s:%d" % (k, len(v)) for k, v in emitted.items())))
 
-    jobs, expect = [], {}
+    st = Stage()
     counts = dict(peg_terms=0, peg_pairs=0, tag_exprs=0, json_docs=0)
+    npeg = ntag_model = njson_model = 0
+    all_hows = ["classes", "operators", "forward"]
 
-    # -- combinators: emitted terms
-    npeg = 0
+    # -- combinators: emitted terms (groups of at most ~6e5 term x input pairs are driven and validated together)
+    acc_jobs, acc_expect, acc_pairs = [], {}, 0
     for c in cfgs:
         if c["mod"] != "PegMC":
             continue
-        cases = emitted[c["name"]]
+        cases = [lib.parse_case(x) for x in emitted.pop(c["name"])]
         first = [x for x in cases if x.get("first")]
         if len(first) != 1:
             raise lib.MachineryError("PegMC %s did not emit its input list" % c["name"])
         ws = first[0]["ws"]
         terms = [x for x in cases if not x.get("first")]
+        del cases
         npeg += len(terms)
         if c.get("sample") and len(terms) > c["sample"]:
             # the model run stays exhaustive; the replay takes all small terms and a seeded sample of the rest
             small = [x for x in terms if all(not g["ts"] for g in x["t"]["ts"])]
             terms = small + pick(rng, [x for x in terms if not all(not g["ts"] for g in x["t"]["ts"])],
                                  c["sample"] - len(small))
-        items = []
+        items, expect = [], {}
         for x in terms:
-            hows = ["classes", "operators", "forward"] if not quick else [rng.choice(["classes", "operators", "classes",
-                                                                                      "operators", "forward"])]
+            nh = c.get("hows", 1 if quick else 3)
+            hows = all_hows if nh >= 3 else rng.sample(all_hows[:2] * 2 + all_hows[2:], 1) if nh == 1 \
+                else all_hows[:2]
             for how in hows:
                 items.append(dict(t=x["t"], how=how))
             expect[("peg", key(x["t"]), key(ws))] = x["res"]
+        del terms
         rng.shuffle(items)
-        for i, ch in enumerate(lib.chunks(items, max(1, len(items) // 500))):
-            if ch:
-                jobs.append(dict(id="%s/%d" % (c["name"], i), kind="peg", ws=ws, terms=ch))
+        jobs = [dict(id="%s/%d" % (c["name"], i), kind="peg", ws=ws, terms=ch)
+                for i, ch in enumerate(lib.chunks(items, max(1, len(items) // 500))) if ch]
         counts["peg_terms"] += len(items)
         counts["peg_pairs"] += len(items) * len(ws)
+        acc_jobs += jobs
+        acc_expect.update(expect)
+        acc_pairs += len(items) * len(ws)
+        if acc_pairs > 600000:
+            st.run(acc_jobs, acc_expect, rng)
+            acc_jobs, acc_expect, acc_pairs = [], {}, 0
     # -- combinators: seeded deeper terms over a richer alphabet
-    nrand = 2500 if quick else 40000
+    nrand = 2500 if quick else 24000
+    jobs = acc_jobs
     for i in range(max(1, nrand // 500)):
         ws = rand_inputs(rng, 36, 6 if i % 2 else 4)
-        items = [dict(t=rand_term(rng, rng.choice([2, 3, 3, 4])), how=rng.choice(["classes", "operators", "forward"]))
-                 for _ in range(500)]
+        items = [dict(t=rand_term(rng, rng.choice([2, 3, 3, 4])), how=rng.choice(all_hows)) for _ in range(500)]
         jobs.append(dict(id="randpeg/%d" % i, kind="peg", ws=ws, terms=items))
         counts["peg_terms"] += len(items)
         counts["peg_pairs"] += len(items) * len(ws)
+    st.run(jobs, acc_expect, rng)
 
     # -- tag expressions
     retab = [[b, t] for b in BODIES for t in UNIVERSE]
-    ntag_model = 0
+    jobs, expect = [], {}
     for c in cfgs:
         if c["mod"] != "TagLangMC":
             continue
-        cases = emitted[c["name"]]
+        cases = [lib.parse_case(x) for x in emitted.pop(c["name"])]
         first = [x for x in cases if x.get("first")]
         if len(first) != 1:
             raise lib.MachineryError("TagLangMC %s did not emit its tag sets" % c["name"])
@@ -346,9 +494,8 @@ def run(prop, tier):
         for x in chosen:
             items.append(dict(toks=x["toks"], sp=[rng.randint(0, 4) if rng.random() < 0.5 else 0 for _ in range(5)]))
             expect[("tag", key(x["toks"]))] = x["vals"]
-        for i, ch in enumerate(lib.chunks(items, max(1, len(items) // 1500))):
-            if ch:
-                jobs.append(dict(id="%s/%d" % (c["name"], i), kind="tag", sets=sets, exprs=ch, retab=retab))
+        jobs += [dict(id="%s/%d" % (c["name"], i), kind="tag", sets=sets, exprs=ch, retab=retab)
+                 for i, ch in enumerate(lib.chunks(items, max(1, len(items) // 800))) if ch]
         counts["tag_exprs"] += len(items)
     sets = [[], ["a"], ["b"], ["ab"], ["a", "b"], ["a", "ab"], ["b", "ab"], ["a", "b", "ab"]]
     nrt = 3000 if quick else 40000
@@ -357,43 +504,37 @@ def run(prop, tier):
                  for _ in range(1000)]
         jobs.append(dict(id="randtag/%d" % i, kind="tag", sets=sets, exprs=items, retab=retab))
         counts["tag_exprs"] += len(items)
+    st.run(jobs, expect, rng)
 
     # -- JSON documents
     modes = ["compact", "default", "indent"]
-    njson_model = 0
+    jobs, expect = [], {}
     for c in cfgs:
         if c["mod"] != "JsonDocMC":
             continue
-        vals = emitted[c["name"]]
-        njson_model += len(vals)
-        chosen = vals if len(vals) <= 2500 else pick(rng, vals, 2500 if quick else 25000)
+        raw = emitted.pop(c["name"])
+        njson_model += len(raw)
+        limit = 2500 if quick else 25000
+        vals = [lib.parse_case(x) for x in (raw if len(raw) <= limit else pick(rng, raw, limit))]
         items = []
-        for x in chosen:
-            for m in (modes if not quick or len(vals) <= 2500 else [rng.choice(modes)]):
+        for x in vals:
+            for m in (modes if not quick or len(raw) <= limit else [rng.choice(modes)]):
                 items.append(dict(v=x["v"], mode=m))
             expect[("json", key(x["v"]))] = x["flat"]
-        for i, ch in enumerate(lib.chunks(items, max(1, len(items) // 800))):
-            if ch:
-                jobs.append(dict(id="%s/%d" % (c["name"], i), kind="json", values=ch))
+        jobs += [dict(id="%s/%d" % (c["name"], i), kind="json", values=ch)
+                 for i, ch in enumerate(lib.chunks(items, max(1, len(items) // 800))) if ch]
         counts["json_docs"] += len(items)
     nrj = 1500 if quick else 20000
     for i in range(max(1, nrj // 500)):
         items = [dict(v=rand_json(rng, rng.choice([2, 3, 4])), mode=rng.choice(modes)) for _ in range(500)]
         jobs.append(dict(id="randjson/%d" % i, kind="json", values=items))
         counts["json_docs"] += len(items)
+    st.run(jobs, expect, rng)
 
-    t1 = time.time()
-    rng.shuffle(jobs)
-    payloads = [dict(jobs=ch) for ch in lib.chunks(jobs, lib.NCPU * 2) if ch]
-    outs = lib.run_driver_parallel("drive_peg.py", payloads, timeout=3000)
-    traces, stats = dict(peg=[], tag=[], json=[]), {}
-    kind_of = dict((j["id"], j["kind"]) for j in jobs)
-    for o in outs:
-        for t in o["traces"]:
-            traces[kind_of[t["id"]]].append(t)
-        for k, v in o["stats"].items():
-            stats[k] = stats.get(k, 0) + v
-    print("timing: drivers %.1fs, %s, %s" % (time.time() - t1, counts, stats))
+    stats, val = st.stats, st.val
+    print("timing: drivers %.1fs, %s, %s" % (st.tdrv, counts, stats))
+    print("timing: validation %.1fs (%d events, %d JVMs; peg %.1fs, tag %.1fs, json %.1fs)"
+          % (sum(st.tval.values()), val["events"], val["jvms"], st.tval["peg"], st.tval["tag"], st.tval["json"]))
     if stats.get("hangs"):
         print("note: %d term runs exceeded the per-term time limit (recorded as position -1); %d terms not run after that"
               % (stats["hangs"], stats.get("terms_not_run_after_hangs", 0)))
@@ -402,51 +543,23 @@ def run(prop, tier):
         vacuous = "driver did not reach all of the code under test: %s" % stats
     elif stats["ok"] < stats["parses"] // 40 or stats["fail"] < stats["parses"] // 40:
         vacuous = "vacuous combinator run (successes %d, failures %d)" % (stats["ok"], stats["fail"])
-
-    t1 = time.time()
-    vpeg = lib.validate_traces("PegTrace", "PegTrace.cfg", traces["peg"])
-    vtag = lib.validate_traces("TagLangTrace", "TagLangTrace.cfg", traces["tag"])
-    vjson = lib.validate_traces("JsonDocTrace", "JsonDocTrace.cfg", traces["json"])
-    val = lib.merge_val(vpeg, vtag, vjson)
-    print("timing: validation %.1fs (%d events, %d JVMs; peg %.1fs, tag %.1fs, json %.1fs)"
-          % (time.time() - t1, val["events"], val["jvms"], vpeg["wall"], vtag["wall"], vjson["wall"]))
-
-    if vacuous and not val["rejected"]:
+    for k in KINDS:
+        oc = st.by_kind.get(k, [0, 0])
+        if not vacuous and (oc[0] == 0 or (oc[1] == 0 and k not in ("until", "opt"))):
+            vacuous = "terms with top kind %s: %d successes, %d failures observed" % (k, oc[0], oc[1])
+    if vacuous and not st.rej:
         raise lib.MachineryError(vacuous)      # with rejections it is a verdict, not vacuity
-    byid = {}
-    for k in traces:
-        for t in traces[k]:
-            byid[t["id"]] = t
-    rejected = dict(((r["id"], r["line"]), r) for r in val["rejected"])
-    bad = [r for r in val["rejected"] if r["clause"].startswith("malformed")]
-    if bad:
-        ev = byid[bad[0]["id"]]["events"][bad[0]["line"] - 1]
-        raise lib.MachineryError("trace validation found a malformed case (%s): %s"
-                                 % (bad[0]["clause"], json.dumps(ev)[:1500]))
-    # consistency of the two directions: what TLC emitted and TLC's verdict on the observation
-    for t in byid.values():
-        kind = kind_of[t["id"]]
-        for ln, ev in enumerate(t["events"], 1):
-            if kind == "peg":
-                exp = expect.get(("peg", key(ev["t"]), key(t["ws"])))
-                same = exp == ev["res"] and all(c["ok"] == r["ok"] and c["v"] == r["v"] for c, r in zip(ev["cres"], ev["res"]))
-            elif kind == "tag":
-                exp = expect.get(("tag", key(ev["toks"]))) if ev["ev"] == "tag" else None
-                same = exp is not None and ev["ok"] and exp == ev["vals"]
-            else:
-                exp = expect.get(("json", key(ev["v"])))
-                same = exp is not None and ev["got"]["ok"] and ev["got"]["toks"] == exp
-            if exp is not None and same == ((t["id"], ln) in rejected):
-                raise lib.MachineryError("emitted expectation and trace validation disagree on %s event %d" % (t["id"], ln))
+
+    if not quick or os.environ.get("VERIF_SELFTEST"):
+        selftest(st)
 
     verdict = lib.Verdict(prop, tier)
     groups = {}
-    for r in val["rejected"]:
-        parts = r["clause"].split(":")
-        groups.setdefault(":".join(parts[:2]), []).append(r)
+    for r in st.rej:
+        groups.setdefault(":".join(r["clause"].split(":")[:2]), []).append(r)
     per_sig = {}
     for g, rs in sorted(groups.items()):
-        rs.sort(key=lambda r: (r.get("size", 0), r["clause"], r["id"], r["line"]))
+        rs.sort(key=lambda r: (r["size"], r["clause"], r["id"], r["line"]))
         sigs = []
         for r in rs:
             s = lib.sig(prop, r["clause"])
@@ -460,59 +573,14 @@ def run(prop, tier):
                 sigs.append(s)
             elif per_sig[s] > 2:
                 continue
-            t = byid[r["id"]]
-            ev = t["events"][r["line"] - 1]
-            kind = kind_of[t["id"]]
-            if kind == "peg":
-                j = r.get("at", 1) - 1
-                what = "%s built by %s on input %r: process -> %s, call -> %s" % (
-                    term_text(ev["t"]), ev["how"], "".join(t["ws"][j]), ev["res"][j], ev["cres"][j])
-                rep = dict(job=dict(id="replay/0", kind="peg", ws=[t["ws"][j]], terms=[dict(t=ev["t"], how=ev["how"])]))
-            elif kind == "tag":
-                what = "taglang.parse(%r): accepted=%s, results on %s = %s" % (ev["text"], ev["ok"], t["sets"], ev["vals"])
-                rep = dict(job=dict(id="replay/0", kind="tag", sets=t["sets"], exprs=[dict(toks=ev["toks"], sp=[0])],
-                                    retab=[]), text=ev["text"])
-            else:
-                what = "json_parser.loads(%r) -> %s, json.loads -> %s" % (ev["text"], ev["got"], ev["std"])
-                rep = dict(job=dict(id="replay/0", kind="json", values=[dict(v=ev["v"], mode=ev["mode"])]))
-            verdict.reject(s, what + "; clause " + r["clause"], rep)
+            verdict.reject(s, r["what"] + "; clause " + r["clause"], r["rep"])
     if per_sig:
         print("note: rejected events per signature: %s" % json.dumps(per_sig, sort_keys=True)[:3000])
 
     # ---- evidence ----
-    distinct = set()
-    nontrivial = 0
-    for t in traces["peg"]:
-        for ev in t["events"]:
-            k = key(ev["t"])
-            if k not in distinct:
-                distinct.add(k)
-                nontrivial += 1 if ev["t"]["ts"] else 0
-    for t in traces["tag"]:
-        for ev in t["events"]:
-            if ev["ev"] == "tag":
-                k = key(ev["toks"])
-                if k not in distinct:
-                    distinct.add(k)
-                    nontrivial += 1 if len(ev["toks"]) > 1 else 0
-    for t in traces["json"]:
-        for ev in t["events"]:
-            k = "j" + key(ev["v"])
-            if k not in distinct:
-                distinct.add(k)
-                nontrivial += 1 if ev["v"]["ts"] else 0
-    s_peg = traces["peg"][0]["events"][0]
-    s_tag = [e for e in traces["tag"][0]["events"] if e["ev"] == "tag"][-1]
-    s_json = traces["json"][0]["events"][-1]
-    samples = [
-        dict(term=term_text(s_peg["t"]), built_by=s_peg["how"], inputs=["".join(w) for w in traces["peg"][0]["ws"][:6]],
-             observed=s_peg["res"][:6]),
-        dict(tag_expression=s_tag["text"], tag_sets=traces["tag"][0]["sets"], results=s_tag["vals"]),
-        dict(json_text=s_json["text"], decoded=s_json["got"]),
-    ]
-    evaluations = stats["parses"] + stats["tag_evals"] + 2 * stats["json_docs"]
+    evaluations = stats.get("parses", 0) + stats.get("tag_evals", 0) + 2 * stats.get("json_docs", 0)
     ev = lib.evidence(
-        prop, tier, models, val, evaluations=evaluations, distinct_nontrivial=nontrivial,
+        prop, tier, models, val, evaluations=evaluations, distinct_nontrivial=st.nontrivial,
         rule="TLC enumerates every well-formed term of the listed depth over the listed constructors (checking the PEG "
              "laws on each term x input), every tag expression of depth <= 2 over five atoms and every JSON value of "
              "the listed depth; each is built from the real classes / written out as text and run; seeded deeper "
@@ -520,14 +588,15 @@ def run(prop, tier):
              "term x input) + predicate evaluations + decodings, each compared by TLC with the reference; "
              "distinct_nontrivial = distinct composite terms + distinct expressions with an operator + distinct "
              "container documents that were run",
-        samples=samples, assumptions=ASSUMPTIONS,
+        samples=[st.samples[k] for k in ("peg", "tag", "json") if k in st.samples], assumptions=ASSUMPTIONS,
         extra=dict(configs=[dict((k, v) for k, v in c.items()) for c in cfgs], case_counts=counts,
                    model_cases=dict(peg_terms=npeg, tag_expressions=ntag_model, json_values=njson_model),
                    laws_checked_on_model=["SequenceLeftToRight", "ChoiceCommits", "FailedAlternativeInvisible",
                                           "LookaheadConsumesNothing", "LookaheadDecides", "ManyGreedy", "OptNeverFails",
                                           "KeepSides", "UntilStops", "ConsumesSound", "RenderReadable", "RenderFaithful",
                                           "BooleanAlgebra", "DocExample", "FlatInjective", "FlatWellFormed"],
-                   driver_stats=stats, exhaustive=False))
+                   driver_stats=stats, outcomes_by_top_kind=dict((k, dict(ok=v[0], fail=v[1])) for k, v in st.by_kind.items()),
+                   exhaustive=False))
     return verdict.finish(ev)
 
 
